@@ -4,6 +4,7 @@
   minimal priority", when flagged operators are associative.
 -/
 import Exmex.Model.Deep
+import Exmex.Proofs.DeepDefs
 import Exmex.Spec.Split
 import Exmex.Proofs.SortSplit
 import Exmex.Proofs.BumpAux
@@ -11,10 +12,6 @@ import Exmex.Proofs.Bump
 import Exmex.Props.C14
 import Exmex.Proofs.ReduceSplit
 namespace Exmex
-
-/-- flagged operators occurring in the group are associative -/
-def DeepAssoc {α : Type} (I : Interp α) (ops : List DBin) : Prop :=
-  ∀ o ∈ ops, o.comm = true → ∀ x y z, I.bin o.idx (I.bin o.idx x y) z = I.bin o.idx x (I.bin o.idx y z)
 
 namespace DeepGroupAux
 open BumpAux
